@@ -61,3 +61,13 @@ func (v *VerifServer) Close() {
 
 // VerifSetRandFloat replaces the coin of the row sample filter.
 func VerifSetRandFloat(f func() float64) { randFloat = f }
+
+// VerifYield, when set, is called at the marked points of the request handlers, the GC pass and
+// the disk storage with the name of the point; the harness uses it to park the calling goroutine.
+var VerifYield func(point string)
+
+func verifYield(point string) {
+	if h := VerifYield; h != nil {
+		h(point)
+	}
+}
